@@ -26,8 +26,11 @@ def run(ctx):
     ctx.rule('R10.2', 'exactly-once responses per worker and command; fan-out and expected count')
     n = S.rule_exactly_once_responses(ctx, 'R10.2')
     n += S.rule_fanout(ctx, 'R10.2')
-    ctx.floor('R10.2', n, 10)
+    n += S.rule_consumers(ctx, 'R10.2')
+    ctx.floor('R10.2', n, 25)
     r3(ctx)
+    ctx.rule('R10.5', 'Track::distances: compatible guard, full pair product without short-circuit, query/result wiring')
+    ctx.floor('R10.5', S.rule_track_distances(ctx, 'R10.5'), 7)
 
 
 def r1(ctx):
@@ -77,8 +80,10 @@ def r1(ctx):
                     # the status examined is the one of the stored (other) track, not of the candidate
                     bk = [k for k in conds if k.kind == 'discr' and k.variants == {'Ok'} and k.expr.has_call('baked')]
                     args = bk[0].expr.calls('baked')[0].args if bk else []
-                    same = bool(args) and repr(args[0].strip().places()[0].root if args[0].strip().places() else None) \
-                        == repr(eb.operand(c.args[1]).strip().places()[0].root)
+                    other = eb.arg(c, 1).strip()
+                    oroot = other.places()[0].root if other.places() else None
+                    same = len(args) >= 2 and all(a.places() and all(p.root == oroot for p in a.places())
+                                                  for a in args[:2])
                     ctx.check(same, R, b, 'distances:readiness-of-stored-track#%d' % n,
                               'baked() is evaluated on the stored track',
                               'the readiness test examines %r, not the stored track that is compared' % (args[:1],),
